@@ -96,8 +96,16 @@ func (c *Catalog) tagsFromTagsDirective(d *directive.Directive) ([]*Tag, *jerr.J
 
 	tt := make([]*Tag, 0, d.UnnamedParametersLen())
 
+	seen := make(map[TagName]struct{}, d.UnnamedParametersLen())
+
 	for _, name := range d.UnnamedParameter() {
 		tn := TagName(name)
+
+		// The same tag given twice would list the interaction twice in that tag.
+		if _, ok := seen[tn]; ok {
+			return nil, d.KeywordError(fmt.Sprintf(jerr.DuplicateNames, name))
+		}
+		seen[tn] = struct{}{}
 
 		t, ok := c.Tags.Get(tn)
 		if !ok {
